@@ -27,7 +27,8 @@ static void gen_power_neighbour(ByteSource& in, size_t cap, Int& u, uint64_t& n,
 static Int gen_u(ByteSource& in, size_t cap, uint64_t& n, CaseInfo& ci, bool sq_only = false) {
   Int u;
   if (in.pick({3, 1}) == 0) gen_power_neighbour(in, cap, u, n, ci, sq_only);
-  else { u = gen_int(in, cap, false); n = sq_only ? 2 : (in.flag() ? in.range(1, 9) : in.logrange(1, 64 * cap + 100)); if (n > u.bits() && !u.is_zero()) ci.label("n_gt_bits"); ci.label("random_u"); }
+  else { u = gen_int(in, cap, false); n = sq_only ? 2 : (in.flag() ? in.range(1, 9) : in.logrange(1, 64 * cap + 100));
+    if (!sq_only && in.chance(24)) { static const uint64_t big[] = {1ull << 31, (1ull << 32) - 1, 1ull << 32, (1ull << 32) + 1, 1ull << 40, 1ull << 62, (1ull << 63) - 1, 1ull << 63, ~0ull - 1, ~0ull}; n = in.flag() ? big[in.range(0, 9)] : (in.u64() | (1ull << in.range(20, 63))); ci.label("huge_root_index"); }   /* root indices up to the largest unsigned long */ if (n > u.bits() && !u.is_zero()) ci.label("n_gt_bits"); ci.label("random_u"); }
   return u;
 }
 static void case_sqrt(ByteSource& in, CaseInfo& ci) {
@@ -105,7 +106,7 @@ static void sweep_item(uint64_t i, CaseInfo& ci) {
 static void check(ByteSource& in, CaseInfo& ci) { switch (in.pick({5, 5, 3})) { case 0: case_sqrt(in, ci); break; case 1: case_root(in, ci); break; default: case_perfpow(in, ci); break; } }
 namespace eng {
 PropDef g_prop = {"C09",
-  "Cases: u = k^n + delta (delta in {0,+-1,+-2,random}; k with long runs of ones, 2^j, 2^j-1, small k; n = 2, 3..7, 8..70, up to beyond the bit length of u) or random u; mpz_sqrt / mpz_sqrtrem (outputs aliasing the operand) / mpn_sqrtrem (r2p separate, == sp, NULL; odd and even limb counts) / mpz_perfect_square_p (also negative) / mpn_perfect_square_p; mpz_root / mpz_nthroot / mpz_rootrem for n>=1 and negative u with odd n; mpz_perfect_power_p on powers, near-misses, p^i*q^j, all |u| <= 70000, negative values. Oracle: refint integer roots (Newton, verified by s^2<=u<(s+1)^2 in the self-test), remainder u - root^n, exactness flag <=> remainder 0, perfect power by root extraction over all prime exponents. Non-trivial: u >= 2 limbs or n beyond the bit length. Distinct = hash of all decoded choices.",
-  check, nullptr, {"exact_power", "power_minus_1", "power_plus_1", "n_gt_bits", "negative_odd_root", "odd_limb_count", "sqrtrem:r2p==sp", "sqrtrem:r2p==NULL", "perfpow:true", "perfpow:negative_true", "ge_rootrem_threshold"}, nullptr, sweep_count, sweep_item,
+  "Cases: u = k^n + delta (delta in {0,+-1,+-2,random}; k with long runs of ones, 2^j, 2^j-1, small k; n = 2, 3..7, 8..70, up to beyond the bit length of u, and now and then up to the largest unsigned long) or random u; mpz_sqrt / mpz_sqrtrem (outputs aliasing the operand) / mpn_sqrtrem (r2p separate, == sp, NULL; odd and even limb counts) / mpz_perfect_square_p (also negative) / mpn_perfect_square_p; mpz_root / mpz_nthroot / mpz_rootrem for n>=1 and negative u with odd n; mpz_perfect_power_p on powers, near-misses, p^i*q^j, all |u| <= 70000, negative values. Oracle: refint integer roots (Newton, verified by s^2<=u<(s+1)^2 in the self-test), remainder u - root^n, exactness flag <=> remainder 0, perfect power by root extraction over all prime exponents. Non-trivial: u >= 2 limbs or n beyond the bit length. Distinct = hash of all decoded choices.",
+  check, nullptr, {"exact_power", "power_minus_1", "power_plus_1", "n_gt_bits", "huge_root_index", "negative_odd_root", "odd_limb_count", "sqrtrem:r2p==sp", "sqrtrem:r2p==NULL", "perfpow:true", "perfpow:negative_true", "ge_rootrem_threshold"}, nullptr, sweep_count, sweep_item,
   "every u in [0,2^16): mpz_sqrt, mpz_sqrtrem, mpn_sqrtrem, mpz/mpn_perfect_square_p, mpz_perfect_power_p of u and -u, mpz_root/rootrem/nthroot for n = 1..18 (and of -u for odd n)"};
 }
